@@ -77,6 +77,12 @@ func runC10(c *caseWriter) (string, bool, map[string]int) {
 		esc("a" + m + "<b>")
 		esc(m + m)
 	}
+	// long inputs: a multi-byte rune, a control character, a special character or a malformed
+	// sequence straddling every offset around the powers of two up to 8192 (buffers, chunks and
+	// block-wise loops have their edges there), and long runs of each
+	for _, v := range longBoundaryInputs() {
+		esc(v)
+	}
 	// random mixes
 	alphabet := []string{"<", ">", "\"", "'", "&", "&amp;", "&#", "a", " ", "\x00", "\x7f", "\u0085", "﷐", "\U0001fffe", "\xff", "\xed\xa0\x80", "é", "\U0010ffff", "\t", "\n"}
 	n := 1500
